@@ -458,6 +458,8 @@ def Not(x):
         return SBool(z3.Not(x.t))
     if isinstance(x, bool):
         return not x
+    if isinstance(x, int) and x == 0:
+        return True  # the unspecified value of an out-of-range access to an EMPTY concrete list (see nth): guarded by the caller
     raise EngineError("Not of non-bool %r" % (x,))
 
 
